@@ -301,6 +301,8 @@ def _yielder_for_nt(source_file, raw_graph, allow_untyped_numbers,
 def _get_base_zip_archive_if_needed(source_file, list_of_source_files, compression_mode):
     if compression_mode != ZIP:
         return None
+    if source_file is None and list_of_source_files is None:  # no local file to uncompress (e.g., a raw graph)
+        return None
     if source_file is not None:
         return [ZipFile(source_file, 'r')]
     result = []
